@@ -274,6 +274,11 @@ func modeSec(c *Ctx) {
 						tag = " [requirement has an alternative naming several schemes]"
 					}
 				}
+				for _, alt := range req {
+					if len(alt) == 0 && len(req) > 1 {
+						tag += " [requirement has an alternative that asks for nothing, next to others]"
+					}
+				}
 				// goag drops an alternative made of a scheme kind it does not support; the
 				// recorded finding is the requirement in which nothing is left after that
 				// (the operation becomes public). While a supported alternative remains,
